@@ -97,7 +97,11 @@ fn operand_load(
         } => {
             let reg = get_register(*reg)?;
             let reg_value = reg.get();
-            assert_eq!(reg.bits(), 128);
+            // an arrangement on anything but a 128-bit vector register
+            // (e.g. an SVE predicate register `p1.h`)
+            if reg.bits() != 128 {
+                return Err(unsupported());
+            }
 
             let (shift, width) = arr_spec_offset_width(arrspec);
 
@@ -183,7 +187,9 @@ fn operand_store(block: &mut il::Block, opr: &bad64::Operand, value: il::Express
             arrspec: Some(arrspec),
         } => {
             let reg = get_register(*reg)?;
-            assert_eq!(reg.bits(), 128);
+            if reg.bits() != 128 {
+                return Err(unsupported());
+            }
 
             let (shift, width) = arr_spec_offset_width(arrspec);
             let is_indexed = is_arr_spec_indexed(arrspec);
@@ -603,7 +609,8 @@ pub(super) fn add(
         let rhs = operand_load(block, &instruction.operands()[2], bits)?;
 
         // perform operation
-        let src = il::Expression::add(lhs, rhs).unwrap();
+        // operands of different widths (e.g. SVE `add z0.h, z0.h, #1`)
+        let src = il::Expression::add(lhs, rhs).map_err(|_| unsupported())?;
 
         // store result
         operand_store(block, &instruction.operands()[0], src)?;
@@ -1391,7 +1398,8 @@ pub(super) fn sub(
         let rhs = operand_load(block, &instruction.operands()[2], bits)?;
 
         // perform operation
-        let src = il::Expression::sub(lhs, rhs).unwrap();
+        // operands of different widths (e.g. SVE `sub z0.h, z0.h, #1`)
+        let src = il::Expression::sub(lhs, rhs).map_err(|_| unsupported())?;
 
         // store result
         operand_store(block, &instruction.operands()[0], src)?;
